@@ -23,15 +23,21 @@ def selftest(tier):
     return strkern.selftest_rlit(2000 if tier == 'quick' else 50000)
 
 
+def _top(i, n=4, hi=13):
+    return ['b%d == %s' % (hi - j, bool((i >> j) & 1)) for j in range(n)]
+
+
 def obligations(tier, seed):
     t = 400 if tier == 'quick' else 3000
+    # quick explores a seeded quarter of each grammar index space (two middle index bits pinned by the seed)
+    q = ['b9 == %s' % bool(seed & 1), 'b8 == %s' % bool(seed & 2)] if tier == 'quick' else []
     n = 2 if tier == 'quick' else 3
     obs = [
-        dict(name='C02a.expr_roundtrip', fn='expr_roundtrip', timeout=t, shards=[['p %% 16 == %d' % i] for i in range(16)],
-             bounds='all %d slots x %d child kinds' % (pk.N_SLOT, pk.N_CHILD)),
+        dict(name='C02a.expr_roundtrip', fn='expr_roundtrip', timeout=t, shards=[_top(i) + q for i in range(16)],
+             bounds='%d slots x %d child kinds (index from 14 boolean structure parameters; quick: a seeded quarter)' % (pk.N_SLOT, pk.N_CHILD)),
         dict(name='C02a.expr.twin', fn='expr_twin', timeout=t, shards=[['p == 5']], expect='refuted', bounds='reachability twin: parentheses are emitted'),
         dict(name='C02b.stmt_roundtrip', fn='stmt_roundtrip', timeout=t,
-             shards=[['s %% 16 == %d' % i, 'c2 == 1' if tier == 'quick' else 'c2 in (1, 9, 41, 63)'] for i in range(16)],
+             shards=[_top(i) + q + ['c2 == %d' % c2] for i in range(16) for c2 in ((1,) if tier == 'quick' else (1, 9, 41, 63))],
              bounds='all %d statement templates x %d child kinds' % (pk.N_STMT, pk.N_CHILD)),
         dict(name='C02d.number_print', fn='number_print', timeout=t, shards=[['neg == %s' % x] for x in (True, False)], bounds='see META'),
         dict(name='C02e.ministring', fn='ministring', timeout=t, shards=[['len(s) <= %d' % n, 'q == %d' % q, 'not has_surrogate(s)'] for q in range(4)],
@@ -48,8 +54,8 @@ def obligations(tier, seed):
     if tier == 'thorough':
         obs.append(dict(name='C02a.expr_roundtrip3', fn='expr_roundtrip3', timeout=t, shards=[['p == %d' % p] for p in range(pk.N_SLOT)],
                         bounds='depth 3: %d x %d x %d' % (pk.N_SLOT, pk.N_CHILD, pk.N_CHILD)))
-        obs.append(dict(name='C02a.expr_roundtrip.py311', fn='expr_roundtrip', timeout=t, python='py311', shards=[['p %% 16 == %d' % i] for i in range(16)],
+        obs.append(dict(name='C02a.expr_roundtrip.py311', fn='expr_roundtrip', timeout=t, python='py311', shards=[_top(i) for i in range(16)],
                         bounds='same on Python 3.11.7'))
-        obs.append(dict(name='C02b.stmt_roundtrip.py311', fn='stmt_roundtrip', timeout=t, python='py311', shards=[['s %% 16 == %d' % i, 'c2 == 1'] for i in range(16)],
+        obs.append(dict(name='C02b.stmt_roundtrip.py311', fn='stmt_roundtrip', timeout=t, python='py311', shards=[_top(i) + ['c2 == 1'] for i in range(16)],
                         bounds='same on Python 3.11.7'))
     return obs
